@@ -279,6 +279,19 @@ class Truth:
             t.len_rtol = ((t1 - t0) / self.circle.R / 198.0) ** 2 / 6.0 * 1.01 + 1e-6
         return t
 
+    def moved(self, M) -> "Truth":
+        """the same curve mapped by a rigid 4x4 map (spline / polyLine / line / project only)"""
+        import copy
+
+        from vf.refmodel import apply
+
+        assert self.kind in POINT_KINDS + ("line", "project")
+        t = copy.copy(self)
+        t.X, t.Y = apply(M, self.X), apply(M, self.Y)
+        if self.pts is not None:
+            t.pts = [apply(M, q) for q in self.pts]
+        return t
+
     def full_poly(self) -> List[np.ndarray]:
         """curve-linear: break points including the extensions beyond X and Y, in X->Y sense"""
         s = self.spec
